@@ -464,6 +464,49 @@ def check_forward_refs(idx: Index, rep: Report) -> None:
             r.fail(g.fq, Finding("C04.R7", g.fq, "block-overwrite", f"`{unparse(st)}` replaces the block registered for `{key}`: earlier successors keep pointing at an orphaned block", f"{g.module.relpath}:{st.lineno}"))
 
 
+def _hint_leak(mi, fn, cfg, start: int, b: str, label: str, depth: int):
+    """A path from `start` to the exit of fn on which `b.name_hint = label` is not stored although the label is a valid,
+    non-default name -- or None.  The store may sit in a helper that is handed both the block and the label."""
+    hint: set[int] = set()
+    for st in walk_local(fn):
+        if isinstance(st, ast.Assign) and isinstance(st.targets[0], ast.Attribute) and st.targets[0].attr == "name_hint" and unparse(st.targets[0].value) == b and unparse(st.value) == label:
+            hint.add(cfg.node_of(st))
+    if depth < 2:
+        for c in calls_in(fn):
+            args = [unparse(a) for a in c.args]
+            if b in args and label in args:
+                nm = call_attr(c) or unparse(c.func)
+                cands = [g for g in mi.functions.values() if g.name == nm]
+                for g in cands:
+                    gn = g.raw_node
+                    ps = [a.arg for a in gn.args.args if a.arg not in ("self", "cls")]
+                    if len(ps) < len(c.args):
+                        continue
+                    m = dict(zip(ps, args))
+                    gb = next((k for k, v in m.items() if v == b), None)
+                    gl = next((k for k, v in m.items() if v == label), None)
+                    if gb is None or gl is None:
+                        continue
+                    gcfg = CFG(gn)
+                    if _hint_leak(mi, gn, gcfg, gcfg.entry, gb, gl, depth + 1) is None:
+                        hint.add(cfg.node_of(c))
+    valid, default = f"Block.is_valid_name({label})", f"Block.is_default_block_name({label})"
+    skip: set[tuple[int, str]] = set()  # edges that are taken only for a label that must not become a hint
+    for nd in cfg.nodes:
+        if nd.kind != "test" or nd.ast is None:
+            continue
+        t = nd.ast
+        atoms = t.values if isinstance(t, ast.BoolOp) and isinstance(t.op, ast.And) else [t]
+        texts = [unparse(a) for a in atoms]
+        if all(x in (valid, f"not {default}") for x in texts):
+            skip.add((nd.id, "F"))
+        if isinstance(t, ast.BoolOp) and isinstance(t.op, ast.Or) and all(unparse(a) in (f"not {valid}", default) for a in t.values):
+            skip.add((nd.id, "T"))
+        if len(atoms) == 1 and texts[0] in (f"not {valid}", default):
+            skip.add((nd.id, "T"))
+    return cfg.path_avoiding(start, cfg.exit, lambda x: x.id in hint, follow_exc=False, edge_ok=lambda a_, b_, lab: (a_, lab) not in skip)
+
+
 def check_label_hints(idx: Index, rep: Report) -> None:
     """A block label other than the automatic `bb<n>` is part of the text: the printer writes the name hint.  Every
     block the parser creates for a label -- at its definition or as a forward reference -- must therefore receive the label
@@ -491,23 +534,7 @@ def check_label_hints(idx: Index, rep: Report) -> None:
             n += 1
             label = unparse(regs[0].targets[0].slice)  # type: ignore[attr-defined]
             inst = f"{f.fq}:{b}"
-            hint = set()
-            for st in walk_local(fn):
-                if isinstance(st, ast.Assign) and isinstance(st.targets[0], ast.Attribute) and st.targets[0].attr == "name_hint" and unparse(st.targets[0].value) == b and unparse(st.value) == label:
-                    hint.add(cfg.node_of(st))
-            # the permitted guard: `if Block.is_valid_name(label) and not Block.is_default_block_name(label): <hint store>`
-            guard_nodes = set()
-            for st in walk_local(fn):
-                if isinstance(st, ast.If) and any(cfg.node_of(x) in hint for x in st.body if isinstance(x, ast.Assign)):
-                    atoms = st.test.values if isinstance(st.test, ast.BoolOp) and isinstance(st.test.op, ast.And) else [st.test]
-                    texts = {unparse(a) for a in atoms}
-                    allowed = {f"Block.is_valid_name({label})", f"not Block.is_default_block_name({label})"}
-                    if texts <= allowed:
-                        guard_nodes.add(cfg.node_of(st.test))
-                    else:
-                        raise AnalysisError(f"{f.fq}: the name hint of `{b}` is set under `{unparse(st.test)[:80]}`, a guard this rule does not know")
-            start = cfg.node_of(mk)
-            p = cfg.path_avoiding(start, cfg.exit, lambda x: x.id in hint or x.id in guard_nodes, follow_exc=False)
+            p = _hint_leak(mi, fn, cfg, cfg.node_of(mk), b, label, 0)
             if p is None:
                 r.ok(inst, f"{f.loc} `{b}` registered for `{label}` gets the label as hint on every path")
             else:
